@@ -61,7 +61,7 @@ def _rand_case(rng):
                 prog.append({"kind": "direct", "cmd": _rand_cmd(rng, keys)})
             else:
                 prog.append({"kind": "txn", "mode": mode if rng.random() < 0.8 else rng.choice(["fast", "locked", "serializable"]),
-                             "form": rng.choice(["ctx", "decor", "decor", "ctx_in_ctx", "decor_in_decor", "ctx_in_decor", "decor_in_ctx"]),
+                             "form": rng.choice(["ctx", "decor", "decor", "ctx_in_ctx", "decor_in_decor", "ctx_in_decor", "decor_in_ctx", "ctx_reentered"]),
                              "cmds": [_rand_cmd(rng, keys) for _ in range(rng.randint(1, 4))], "raise": rng.random() < 0.2})
         tasks.append(prog)
     return {"timeout": rng.choice([0.35, 0.55, 0.75]), "init": {str(k): rng.randint(0, 9) for k in keys if rng.random() < 0.6},
@@ -240,6 +240,12 @@ def _run(case):
                     async with cache.transaction(mode=tm, timeout=T):
                         await body(cmds[:half], False, res)
                         async with cache.transaction(mode=tm, timeout=T):
+                            return await body(cmds[half:], fail, res)
+                if form == "ctx_reentered":            # one context object entered again inside itself
+                    uow = cache.transaction(mode=tm, timeout=T)
+                    async with uow:
+                        await body(cmds[:half], False, res)
+                        async with uow:
                             return await body(cmds[half:], fail, res)
                 if form == "decor_in_decor":
                     async def outer(res):
